@@ -187,6 +187,43 @@ fn run(rng: &mut Rng, idx: u64, tier: Tier) -> CaseOut {
         sanitised.push((k, san));
         raw_states.push((k, rs));
     }
+    // a batch whose neighbours have results of the same shape (same BDD size and cardinality, different sets): every
+    // position of the sanitising batch entry points must be the sanitised form of the raw result at that position
+    if world.n() >= 2 {
+        if let Ok(sys) = build(&world, need) {
+            let (p, q) = (world.net.names[0].clone(), world.net.names[1].clone());
+            let batch: Vec<String> = match rng.below(3) {
+                0 => vec![p.clone(), q.clone(), text.clone(), format!("(~{p})")],
+                1 => vec![format!("(EX {p})"), format!("(EX (~{p}))"), format!("(AX {q})"), format!("(AX {p})")],
+                _ => vec![text.clone(), format!("({p} & (~{q}))"), format!("({q} & (~{p}))"), format!("(~{q})")],
+            };
+            let refs: Vec<&str> = batch.iter().map(|s| s.as_str()).collect();
+            let raw = call(|| biodivine_hctl_model_checker::model_checking::model_check_multiple_formulae_dirty(refs.clone(), &sys.graph));
+            let san = if rng.coin() {
+                call(|| biodivine_hctl_model_checker::model_checking::model_check_multiple_formulae(refs.clone(), &sys.graph))
+            } else {
+                call(|| {
+                    let trees: Result<Vec<_>, String> = refs.iter().map(|t| biodivine_hctl_model_checker::preprocessing::parser::parse_and_minimize_hctl_formula(sys.graph.symbolic_context(), t)).collect();
+                    biodivine_hctl_model_checker::model_checking::model_check_multiple_trees(trees?, &sys.graph)
+                })
+            };
+            if let (Call::Ok(raw), Call::Ok(san)) = (raw, san) {
+                out.count("look_alike_batches");
+                for i in 0..batch.len().min(raw.len()).min(san.len()) {
+                    let rs: Vec<_> = world.cs.colours.iter().map(|c| sys.book.states_of(raw[i].as_bdd(), world.n(), c)).collect();
+                    let ss: Vec<_> = world.cs.colours.iter().map(|c| sys.canon_book.states_of(san[i].as_bdd(), world.n(), c)).collect();
+                    if rs != ss || raw.len() != san.len() {
+                        out.violate(
+                            "sanitised result differs from the raw result",
+                            format!("batch {batch:?}: position {i}: the sanitising batch entry point does not return the sanitised form of the raw result"),
+                            case_json(&world, &batch, vec![("position", J::Int(i as i64))]),
+                        );
+                        return out;
+                    }
+                }
+            }
+        }
+    }
     for w in sanitised.windows(2) {
         if w[0].1.as_bdd() != w[1].1.as_bdd() {
             out.violate(
